@@ -275,7 +275,6 @@ fn run_server(trace: &[TMsg], streams: &[StreamSpec], early_wait: usize, sched: 
         ctx.sig.u64((s.window.0 as u64) << 20 | s.window.1 as u64);
     }
     ctx.sig.u64(sched.seed);
-    ctx.sched = Some(sched.seed ^ msgs.len() as u64);
     // ---- build the command script; stream k of the session gets the k-th announced id
     let (mut cmds, _) = server_cmds(msgs.len(), streams, early_wait);
     // after everything is parsed: window changes, searches, lookups (ids: Known(n) indexes the announced ids)
